@@ -51,7 +51,9 @@ def imread(filename, imread=None, preprocess=None):
     if not filenames:
         raise ValueError(f"No files found under name {filename}")
 
-    name = f"imread-{tokenize(filenames, map(os.path.getmtime, filenames))}"
+    name = "imread-" + tokenize(
+        filenames, map(os.path.getmtime, filenames), imread, preprocess
+    )
 
     sample = imread(filenames[0])
     if preprocess:
